@@ -62,8 +62,9 @@ def cfg_with_devs(wd, cfg, devs, tag=""):
 
 # ------------------------------------------------------------------ abstract scenarios
 
-def tx(kind, ins, outs, refs=(), w=1):
-    return {"kind": kind, "ins": list(ins), "outs": list(outs), "refs": list(refs), "w": w}
+def tx(kind, ins, outs, refs=(), w=1, lo=-99, hi=99):
+    """lo / hi: the transaction is valid while lo <= height of the tip (root = 0) <= hi"""
+    return {"kind": kind, "ins": list(ins), "outs": list(outs), "refs": list(refs), "w": w, "lo": lo, "hi": hi}
 
 
 def scenario(name, root, nodes, txs, sets=(), rsets=(), look=(), txsetc=(), regime="both", side=(), maxpool=99, maxblock=99):
@@ -76,7 +77,9 @@ def scenario(name, root, nodes, txs, sets=(), rsets=(), look=(), txsetc=(), regi
         h.append(h[p - 1] + 1)
     cr = [sorted(root)] + [sorted({o for t in b for o in txs[t - 1]["outs"]}) for _, b in nodes]
     sp = [[]] + [sorted({i for t in b for i in txs[t - 1]["ins"]}) for _, b in nodes]
-    return {"name": name, "regime": regime, "v1ok": regime == "both", "maxpool": maxpool, "maxblock": maxblock, "n": len(par), "parent": par, "height": h, "body": body, "creates": cr, "spends": sp,
+    if regime == "v2":      # v2 is required: a v1 transaction is never valid
+        txs = [dict(t, hi=-99) if t["kind"] == "v1" else t for t in txs]
+    return {"name": name, "regime": regime, "maxpool": maxpool, "maxblock": maxblock, "n": len(par), "parent": par, "height": h, "body": body, "creates": cr, "spends": sp,
             "ntx": len(txs), "tx": txs, "sets": list(sets), "rsets": [list(r) for r in rsets], "look": list(look),
             "txsetc": list(txsetc), "side": list(side)}
 
@@ -149,14 +152,24 @@ def pool_scenarios(tier):
     nodes2 = [(1, [1, 2]), (1, []), (3, []), (4, [3]), (2, [4])]
     sets2 = [cset("v2", [1, 2]), cset("v2", [1, 2, 4]), cset("v1", [3]), cset("v2", [4], basis=2), cset("v2", [2, 4], basis=1)]
     b = scenario("pool-confirm-both", [1, 2, 3], nodes2, T2, sets=sets2)
+    # the hardfork boundaries: v2 is admitted from tip height 1 on (allow height 2), v1 up to tip
+    # height 2 (require height 4), v1 signatures made before the allow height die at height 2;
+    # a fork that reverts the boundary blocks:   1 -- 2 -- 3 -- 4 -- 7      1 -- 5 -- 6 -- 8 -- 9
+    Tb = [tx("v2", [1], [4], lo=1),            # 1 A   v2 on an old element
+          tx("v2", [4], [5], lo=1),            # 2 B   its child
+          tx("v1", [2], [6], hi=1),            # 3 D   v1 signed before the allow height
+          tx("v1", [3], [7], lo=2, hi=2)]      # 4 E   v1 signed after it: valid at height 2 only
+    nodesb = [(1, []), (2, []), (3, []), (1, []), (5, []), (4, []), (6, []), (8, [])]
+    setsb = [cset("v2", [1, 2]), cset("v2", [1]), cset("v1", [3]), cset("v1", [4]), cset("v2", [2], basis=1)]
+    bd = scenario("pool-boundary", [1, 2, 3], nodesb if tier != "quick" else nodesb[:7], Tb, sets=setsb)
     if tier == "quick":
-        return [a, b]
+        return [a, b, bd]
     # every abstract transaction in the other version as well (v1 parent/child/conflict, v2 singles)
     flip = {"v1": "v2", "v2": "v1"}
     Tf = [tx(flip[t["kind"]], t["ins"], t["outs"]) for t in T]
     setsf = [cset(flip[c["kind"]], c["txs"], basis=c["basis"]) for c in sets]
     c = scenario("pool-fork-flipped", [1, 2, 3], nodes[:5], Tf, sets=setsf)
-    return [a, b, c]
+    return [a, b, bd, c]
 
 
 def full_scenarios(tier):
@@ -424,7 +437,7 @@ def leg_t(wd, binary, prop, mode, verdict, devs, histories, steps, shards=8, tag
 ACCEPT = {
     "C14": r"^(audit:c14:|trace:C14:(AddSet|Lookup):|trace:C14:[A-Za-z]+:(Atomicity|KnownIffAllPooled|LookupExact|NoAliasing|TypeOK))",
     "C05": r"^(audit:c05:|trace:C05:(Obs|Mine|Submit|Revert|Apply|Done|Reset):|trace:C05:[A-Za-z]+:(PrefixValid|Retention|Retrievable|NoInvention|Minable|Mined|EvictOnlyWhenFull|TypeOK))",
-    "C13": r"^(audit:c13:|trace:C13:(Rebase|TxSet):|trace:C13:AddSet:unexplained:stale-basis|trace:C13:[A-Za-z]+:(Rebase|ParentsFirst|BasisIsTip|TxSetErrors|NoPanic))",
+    "C13": r"^(audit:c13:|trace:C13:(Rebase|TxSet):|trace:C13:AddSet:unexplained:stale-basis|trace:C13:[A-Za-z]+:(Rebase|ParentsFirst|BasisIsTip|TxSet[A-Za-z]*|NoPanic))",
 }
 
 
@@ -498,7 +511,7 @@ def run(tier):
         "p2": lambda: probe(wd, "Pool_dev_index.cfg", scfile, "DevSharedIndex", ["LookupExactP"], "probe_index"),
         "r": lambda: leg_r(wd, binary, PROP, "Pool_contract_edges.cfg", scens, "contract", rng, verdict, devs, accept=acc),
         "t": lambda: leg_t(wd, binary, PROP, "c14", verdict, devs, histories=nh, steps=st, accept=acc, timeout=3000,
-                           extra_env={"VERIF_SCRIPTED": 4 if tier == "quick" else 36, "VERIF_SCRIPT_KINDS": "mixed-inputs,storage-proof" if tier == "quick" else "mixed-inputs,storage-proof,cross-kind-eviction"}),
+                           extra_env={"VERIF_SCRIPTED": 5 if tier == "quick" else 40, "VERIF_SCRIPT_KINDS": "mixed-inputs,boundary,storage-proof,boundary,boundary" if tier == "quick" else "mixed-inputs,storage-proof,cross-kind-eviction,boundary,boundary"}),
     })
     ms, rr, tt = [res["m"]], [res["r"]], res["t"]
     probes = {"DevPartialAdd breaks AtomicityStrict": res["p1"], "DevSharedIndex breaks LookupExactStrict": res["p2"]}
